@@ -30,15 +30,31 @@ def _lemma_term(ex, lem, int_mode=True):
     rng = [z3.And(c >= 0, c < RANGE) for c in bvs if c.sort() == z3.IntSort()] if lem.kind == "bv64" else []
     full = z3.Implies(z3.And(*rng), body) if rng else body
     pats = [Eval(ex, st, True, bound).expr(ex.parse_clause(p)).z for p in lem.trig]
-    if len(pats) > 1 and lem.kind == "bv64":
+    if len(pats) > 1:
         return z3.ForAll(bvs, full, patterns=[z3.MultiPattern(*pats)])
     if pats:
         return z3.ForAll(bvs, full, patterns=pats)
     return z3.ForAll(bvs, full)
 
 
-def lemma_formulas(ex, groups):
+def deffn_axioms(ex, groups):
+    from .expr import ufun
+    from .symexec import State
     out = []
+    for name, (params, body, group, ret) in ex.reg.deffns.items():
+        if group not in groups:
+            continue
+        rt = parse_type(ret)
+        f = ufun(name, [z3.IntSort()] * len(params), sort_of(rt))
+        cs = [z3.Int(f"{p}!def_{name}") for p in params]
+        ev = Eval(ex, State(), True, {p: V(INT, c) for p, c in zip(params, cs)})
+        b = ev.expr(ex.parse_clause(body))
+        out.append(z3.ForAll(cs, f(*cs) == b.z, patterns=[f(*cs)]))
+    return out
+
+
+def lemma_formulas(ex, groups):
+    out = deffn_axioms(ex, groups)
     for lem in ex.reg.lemmas.values():
         if lem.group in groups or lem.name in groups:
             out.append(_lemma_term(ex, lem))
@@ -96,6 +112,10 @@ class _BV(ast.NodeVisitor):
                 return a[0] | (a[0] + 1)
             if f == "lo":
                 return a[0] & (a[0] + 1)
+            from .spec import REG
+            if f in REG.deffns:
+                params, body, _, _ = REG.deffns[f]
+                return _BV(dict(zip(params, a))).ev(ast.parse(body, mode="eval").body)
         raise Unsupported("bv lemma syntax: " + ast.dump(n)[:80])
 
 
